@@ -8,6 +8,7 @@ import (
 	"net/http"
 	"net/http/httptest"
 	"os"
+	"path/filepath"
 	"strings"
 	"sync"
 	"time"
@@ -300,7 +301,8 @@ func (s *session) attempt(n int) (retry bool) {
 			return false
 		}
 	}
-	child, err := lib.StartBinary(lib.BinaryOpts{Dir: dir, Args: s.cfg.args(s.mat), TLS: s.cfg.TLS})
+	child, err := lib.StartBinary(lib.BinaryOpts{Dir: dir, Args: s.cfg.args(s.mat), TLS: s.cfg.TLS,
+		Env: []string{"SSL_CERT_FILE=" + s.mat.hostTrustFile, "SSL_CERT_DIR=" + filepath.Join(s.mat.dir, "no-such-cert-dir")}})
 	if err != nil {
 		s.inconclusive(fmt.Sprintf("server did not start for %s: %v", s.cfg, err))
 		if child != nil && child.Cmd != nil && child.Cmd.Process != nil {
